@@ -11,10 +11,14 @@ CHECKS = {
              "(classifier_meets_spec: translated is_allowed = declarative policy for all byte strings; emit_only_permitted: "
              "every transport.sendto / send_data over every op history is permitted and non-null; socket opened only by the "
              "previous hop). Hand-written emission-path model tied to the real TunnelExitSocket + TunnelCommunity.on_data/"
-             "exit_data by differential runs; the policy is also evaluated directly on what the implementation emitted.",
+             "exit_data by differential runs; the policy is also evaluated directly on what the implementation emitted. Second property "
+             "file props/C06x.v (15 theorems): the decisions of on_data/exit_data/TunnelExitSocket (source-IP gate as text equality, "
+             "enabled / is_allowed / domain / no-transport-yet / queue bound / FIFO drain with re-check / IPv4-mapped sources / "
+             "transport family) are translated from the AST every run (tr_exit, fail closed) and the emission theorems are proved "
+             "over them for every op history, plus gen_refines_hand_model (the hand model is an abstraction of the generated one).",
         note="Trusted: Coq kernel; the Python-AST->Gallina translator; the emission-path model (correspondence-checked, "
              "bounded by generated histories); DNS answers are non-null IPs; fake transports stand for OS sockets.",
-        technique="Coq proof over translated classifier + hand model, differential correspondence", design="5/C06"),
+        technique="Coq proof over AST-translated classifier and emission decisions (refinement to the hand model) + differential correspondence", design="5/C06"),
 }
 
 CHECKS["C02"] = dict(
